@@ -201,6 +201,11 @@ package objects
 // a resource handed in from outside does not share storage with the node's own four resource objects
 //@ spec sepN(n *Node, r *resources.Resource) bool = sepR(r, n.totalResource) && sepR(r, n.allocatedResource) && sepR(r, n.occupiedResource) && sepR(r, n.availableResource)
 
+// ownership assumptions (unchecked, reported; DESIGN section 10 item 8): the resource objects held in node ledgers are
+// not shared with the resources of the allocations listed on the node nor with queue ledgers
+//@ global forall n *Node, k string :: n.allocations[k] != nil ==> okR(n.allocations[k].allocatedResource) && sepN(n, n.allocations[k].allocatedResource)
+//@ global forall n *Node, q *Queue :: sepN(n, q.allocatedResource)
+
 //@ invariant[own] Node as inv(sn): sn != nil && okR(sn.totalResource) && okR(sn.allocatedResource) && okR(sn.occupiedResource) && okR(sn.availableResource) && sepR(sn.totalResource, sn.allocatedResource) && sepR(sn.totalResource, sn.occupiedResource) && sepR(sn.totalResource, sn.availableResource) && sepR(sn.allocatedResource, sn.occupiedResource) && sepR(sn.allocatedResource, sn.availableResource) && sepR(sn.occupiedResource, sn.availableResource)
 //@ invariant[L1] Node as inv(sn): forall t Key :: rv(sn.availableResource, t) == rv(sn.totalResource, t) - rv(sn.allocatedResource, t) - rv(sn.occupiedResource, t)
 //@ invariant[maps] Node as inv(sn): sn.allocations != nil
@@ -250,6 +255,11 @@ package objects
 //@   ensures[capacity] ok ==> (forall t Key :: has(alloc.allocatedResource, t) ==> rv(alloc.allocatedResource, t) <= posv(old(rv(sn.totalResource, t) - rv(sn.allocatedResource, t) - rv(sn.occupiedResource, t))))
 //@   ensures[nonneg] ok ==> (forall t Key :: rv(sn.availableResource, t) >= min(0, old(rv(sn.availableResource, t))))
 //@   ensures[listed] ok ==> sn.allocations[alloc.allocationKey] == alloc
+//@   ensures[booked] ok ==> (forall t Key :: rv(sn.availableResource, t) == old(rv(sn.availableResource, t)) - rv(alloc.allocatedResource, t))
+//@   ensures[ledger] ok ==> (forall t Key :: rv(sn.allocatedResource, t) == old(rv(sn.allocatedResource, t)) + (alloc.foreign ? 0 : rv(alloc.allocatedResource, t)) && rv(sn.occupiedResource, t) == old(rv(sn.occupiedResource, t)) + (alloc.foreign ? rv(alloc.allocatedResource, t) : 0))
+//@   ensures[frame] forall t Key :: rv(sn.totalResource, t) == old(rv(sn.totalResource, t))
+//@   ensures[refused] !ok ==> (forall t Key :: rv(sn.availableResource, t) == old(rv(sn.availableResource, t)) && rv(sn.allocatedResource, t) == old(rv(sn.allocatedResource, t)) && rv(sn.occupiedResource, t) == old(rv(sn.occupiedResource, t)))
+//@   ensures[arg] alloc != nil ==> unch(alloc.allocatedResource)
 
 //@ func (sn *Node) AddAllocation(alloc *Allocation)
 //@   props C01 C03
@@ -279,7 +289,6 @@ package objects
 //@ func (sn *Node) RemoveAllocation(allocationKey string) (removed *Allocation)
 //@   props C01 C03
 //@   requires inv(sn)
-//@   requires forall k string :: sn.allocations[k] != nil ==> okR(sn.allocations[k].allocatedResource) && sepN(sn, sn.allocations[k].allocatedResource)
 //@   assigns sn.allocations[*], sn.occupiedResource, sn.allocatedResource.Resources[*], sn.availableResource.Resources[*]
 //@   ensures inv(sn)
 //@   ensures[found] removed == old(sn.allocations[allocationKey])
@@ -302,7 +311,6 @@ package objects
 //@   props C01
 //@   mode nopanic=off
 //@   requires inv(sn) && okR(alloc.allocatedResource) && sepN(sn, alloc.allocatedResource) && mag(alloc.allocatedResource)
-//@   requires forall k string :: sn.allocations[k] != nil ==> okR(sn.allocations[k].allocatedResource) && sepN(sn, sn.allocations[k].allocatedResource)
 //@   assigns sn.allocations[*], sn.occupiedResource.Resources[*], sn.availableResource
 //@   ensures inv(sn)
 //@   ensures[found] prev == old(sn.allocations[alloc.allocationKey])
@@ -340,3 +348,30 @@ package objects
 //@   ensures[positive] ok ==> (forall t Key :: rv(res, t) >= 0) && (exists t Key :: rv(res, t) > 0)
 //@   ensures[reserved] ok ==> len(sn.reservations) == 0 || (allocationKey != "" && sn.reservations[allocationKey] != nil)
 //@   ensures[fits] ok ==> (forall t Key :: has(res, t) ==> rv(res, t) <= posv(rv(sn.availableResource, t)))
+
+// the shim's predicate is an oracle: "accepted" is the token predOK(ask key, node id)
+//@ spec abstract predOK(allocKey string, nodeID string) bool
+//@ func (sn *Node) preAllocateConditions(ask *Allocation) (err error)
+//@   props C01
+//@   trusted "shim predicate plugin (external oracle); on failure only the ask's allocation log is written"
+//@   assigns ask.allocLog[*]
+//@   ensures err == nil ==> predOK(ask.allocationKey, sn.NodeID)
+
+// every scheduler bind goes through tryNode: the bind gate is reached only after the pre-check (fits, positive,
+// reservation rule) and the predicate; at the commit point node and queue chain are booked with exactly the ask;
+// on the revert path the node ledger is what it was
+//@ func (sa *Application) tryNode(node *Node, ask *Allocation) (res *AllocationResult, err error)
+//@   props C01 C02 C03
+//@   sweep
+//@   mode nopanic=off
+//@   requires inv(node) && okR(ask.allocatedResource) && sepN(node, ask.allocatedResource)
+//@   at[prechecked] call objects.Node.TryAddAllocation#1: assert (forall t Key :: has(ask.allocatedResource, t) ==> rv(ask.allocatedResource, t) <= posv(rv(node.availableResource, t))) && (exists t Key :: rv(ask.allocatedResource, t) > 0)
+//@   at[reservedfor] call objects.Node.TryAddAllocation#1: assert len(node.reservations) == 0 || (ask.allocationKey != "" && node.reservations[ask.allocationKey] != nil)
+//@   at[predicate] call objects.Node.TryAddAllocation#1: assert predOK(ask.allocationKey, node.NodeID) && arg0 == node && arg1 == ask
+//@   at[commitnode] call objects.Application.allocateAsk#1: assert forall t Key :: rv(node.availableResource, t) == old(rv(node.availableResource, t)) - rv(ask.allocatedResource, t) && rv(node.allocatedResource, t) == old(rv(node.allocatedResource, t)) + (ask.foreign ? 0 : rv(ask.allocatedResource, t))
+//@   at[commitfits] call objects.Application.allocateAsk#1: assert forall t Key :: has(ask.allocatedResource, t) ==> rv(ask.allocatedResource, t) <= posv(old(rv(node.totalResource, t) - rv(node.allocatedResource, t) - rv(node.occupiedResource, t)))
+//@   at[commitqueue] call objects.Application.allocateAsk#1: assert forall q *Queue, t Key :: anc(sa.queue, q) ==> rv(q.allocatedResource, t) == clamp64(old(rv(q.allocatedResource, t)) + rv(ask.allocatedResource, t))
+//@   at[commitmax] call objects.Application.allocateAsk#1: assert forall q *Queue, t Key :: anc(sa.queue, q) && has(ask.allocatedResource, t) && (q.parent == nil || has(q.maxResource, t)) ==> rv(q.allocatedResource, t) <= posv(rv(q.maxResource, t))
+//@   at[commitlisted] call objects.Application.allocateAsk#1: assert node.allocations[ask.allocationKey] == ask && arg1 == ask
+//@   at[revertnode] call objects.Node.RemoveAllocation#1 after: assert forall t Key :: rv(node.availableResource, t) == old(rv(node.availableResource, t)) && rv(node.allocatedResource, t) == old(rv(node.allocatedResource, t)) && rv(node.occupiedResource, t) == old(rv(node.occupiedResource, t))
+//@   at[revertqueue] call objects.Node.RemoveAllocation#1 after: assert forall q *Queue :: q.allocatedResource == old(q.allocatedResource)
